@@ -136,6 +136,10 @@ impl FromStr for Imm {
             }
             // Parse the magnitude in 64 bits so that -2147483648 is representable.
             match s.parse::<i64>() {
+                // Like a hexadecimal or binary literal, a decimal literal
+                // without a sign may use all 32 bits: 4294967295 is 0xFFFFFFFF.
+                #[allow(clippy::cast_possible_wrap)]
+                Ok(i) if mul == 1 => u32::try_from(i).map(|v| Imm(v as i32)).map_err(|_| ()),
                 Ok(i) => i
                     .checked_mul(i64::from(mul))
                     .and_then(|v| i32::try_from(v).ok())
